@@ -471,6 +471,27 @@ func (s *listSys) checkPaging() ([]*engine.Violation, int64) {
 	// start markers: every key of the universe (present or not), one beyond the end
 	markers := append([]string{}, s.u.keys...)
 	markers = append(markers, "zzz")
+	// a position given with a raw ';' (clients differ in whether they escape it) means the same
+	// position as the escaped spelling, or is refused: it must not be dropped
+	if paginates {
+		for _, k := range keys {
+			if !strings.Contains(k, ";") || strings.ContainsAny(k, "&%+#") {
+				continue
+			}
+			raw := strings.ReplaceAll(urlq(k), "%3B", ";")
+			for _, form := range []string{"marker=", "list-type=2&start-after="} {
+				esc := s.w.List(s.bucket, form+urlq(k))
+				got := s.w.List(s.bucket, form+raw)
+				evals += 2
+				if got.Panic == "" && got.Status >= 400 && got.Status < 500 {
+					continue
+				}
+				if a, b := mergePage(esc), mergePage(got); got.Status != 200 || strings.Join(a.names, "\x00") != strings.Join(b.names, "\x00") {
+					vs = append(vs, viol(sig("C04", kind, "walk", "raw-semicolon-in-position", strings.SplitN(form, "=", 2)[0]), "GET /%s?%s%s with live keys %q answers %d %q; with the ';' escaped it answers %q", s.bucket, form, raw, keys, got.Status, b.names, a.names))
+				}
+			}
+		}
+	}
 	// prefixes that begin with the delimiter: what such a listing contains is outside the
 	// statement's side conditions, but whatever the unpaginated listing says, its pages must
 	// add up to it (the server's own unpaginated answer is the reference here)
@@ -851,7 +872,7 @@ func listPlans(c *engine.Ctx, prop string) []listPlan {
 	// (byte order differs from code-point/collation order), spaces, plus and percent signs
 	ur := newListUniverse("ab/", 1, 3, "a", 0)
 	ur.name = "rich"
-	ur.keys = []string{"a b", "a%2Fb", "a&b", "a+b", "a<b>", "a\"b'", "a/é", "a/日", "a/\U0001F600x", "z", "é", "é/a&b", "€", "\U0001F600"}
+	ur.keys = []string{"a b", "a%2Fb", "a&b", "a+b", "a;b", "a<b>", "a\"b'", "a/é", "a/日", "a/\U0001F600x", "z", "é", "é/a&b", "€", "\U0001F600"}
 	sort.Strings(ur.keys)
 	ur.prefixes = []string{"", "a", "a ", "a%", "a&", "a+", "a<", "a\"", "a/", "a/é", "z", "é", "é/", "é/a&", "€", "\U0001F600", "\xc3"}
 	for _, k := range []drv.Kind{drv.Mem, drv.Bolt, drv.MultiMem, drv.SingleMem} {
@@ -914,6 +935,86 @@ func runList(c *engine.Ctx, prop string) {
 	}
 }
 
+// c04FolderObjects: keys that end with the delimiter ("folder objects", created by consoles
+// and by form uploads) next to keys below them. What such a listing contains is left to the
+// server (the statement's side conditions); its pages must add up to its own unpaginated answer.
+func c04FolderObjects(c *engine.Ctx) {
+	w, err := drv.NewWorld(drv.Config{Kind: drv.Mem})
+	if err != nil {
+		engine.HarnessError("C04: %v", err)
+	}
+	defer w.Close()
+	w.Do(drv.Req{Method: "PUT", Path: "/aaa"})
+	keys := []string{"docs/", "docs/img/", "docs/img/a", "docs/img/b", "docs/z", "e", "f/"}
+	for _, k := range keys {
+		// (a PUT path would lose the trailing slash: the Go API stores the key as it is)
+		if _, err := w.Backend.PutObject("aaa", k, map[string]string{}, strings.NewReader("v"), 1); err != nil {
+			engine.HarnessError("C04 folder objects: %v", err)
+		}
+	}
+	for _, p := range []string{"", "docs/", "docs/img/", "docs/i", "f"} {
+		base := drv.Q("delimiter", "/")
+		if p != "" {
+			base = joinQ(drv.Q("prefix", p), base)
+		}
+		full := w.List("aaa", base)
+		c.Add(1, 1, 1, 1)
+		if full.Status != 200 {
+			continue
+		}
+		ref := mergePage(full)
+		for mk := 1; mk <= len(ref.names)+1; mk++ {
+			for _, v2 := range []bool{false, true} {
+				var got []string
+				cont, trace := "", ""
+				for page := 0; ; page++ {
+					q := joinQ(base, "max-keys="+strconv.Itoa(mk))
+					if v2 {
+						q = joinQ(q, "list-type=2")
+					}
+					q = joinQ(q, cont)
+					lp := w.List("aaa", q)
+					c.Add(0, 0, 0, 1)
+					ps := mergePage(lp)
+					trace += fmt.Sprintf(" | %q trunc=%v", ps.names, lp.IsTruncated)
+					if lp.Status != 200 || lp.Panic != "" || len(ps.names) > mk || page > len(ref.names)+2 {
+						got = append(got, fmt.Sprintf("<page %d: status %d, %d entries>", page, lp.Status, len(ps.names)))
+						break
+					}
+					got = append(got, ps.names...)
+					if !lp.IsTruncated {
+						break
+					}
+					switch {
+					case v2 && lp.NextToken != "":
+						cont = drv.Q("continuation-token", lp.NextToken)
+					case !v2 && lp.NextMarker != "":
+						cont = drv.Q("marker", lp.NextMarker)
+					default:
+						got = append(got, "<truncated without a continuation>")
+					}
+					if strings.HasPrefix(got[len(got)-1], "<") {
+						break
+					}
+				}
+				gs, rs := append([]string{}, got...), append([]string{}, ref.names...)
+				sort.Strings(gs)
+				sort.Strings(rs)
+				if strings.Join(gs, "\x00") != strings.Join(rs, "\x00") {
+					api := "V1"
+					if v2 {
+						api = "V2"
+					}
+					c.Report(&engine.Violation{Sig: sig("C04", "mem", "walk", "pages-differ-from-unpaginated", "folder-objects", api), World: "mem", History: []string{fmt.Sprintf("keys %q", keys), "GET /aaa?" + base + "&max-keys=" + strconv.Itoa(mk)},
+						Msg: fmt.Sprintf("keys %q, GET /aaa?%s, max-keys=%d: pages%s add up to %q, the unpaginated listing is %q", keys, base, mk, trace, got, ref.names)})
+					return
+				}
+			}
+		}
+	}
+	c.Bounds["folder_object_keys"] = keys
+}
+
 func init() {
 	Registry["C03"] = func(c *engine.Ctx) {
 		c.Rule = "state = canonical snapshot of the bucket after a put/delete history (live set + raw storage residue); evaluation = one ListObjects request (prefix x delimiter x V1|V2) compared with the A.2 grouping oracle; distinct_nontrivial = distinct canonical states"
@@ -926,6 +1027,7 @@ func init() {
 		runList(c, "C04")
 		if c.Replay == nil {
 			bigObjects(c)
+			c04FolderObjects(c)
 		}
 	}
 }
